@@ -240,7 +240,10 @@ def _transparent(it, a, k):
 def _stack(it, a, k):
     seq = a[0]
     if isinstance(seq, (list, tuple)):
-        return tuple(seq)
+        from .ndarr import stack
+
+        axis = k.get("axis", a[1] if len(a) > 1 else 0)
+        return stack(list(seq), axis)
     return NotImplemented
 
 
@@ -433,7 +436,9 @@ def _arange(it, a, k):
 def _array(it, a, k):
     v = a[0]
     if isinstance(v, (list, tuple)):
-        return tuple(_array(it, [x], {}) if isinstance(x, (list, tuple)) else x for x in v)
+        from .ndarr import NdArr
+
+        return NdArr.from_nested(v)
     return v
 
 
